@@ -54,11 +54,11 @@ def model(rng, i):
                           'value': rng.choice([0, 0, -1, -0.5])}]
         if rng.random() < 0.5:
             spec['motor']['i0'] = spec['motor']['imax'] = None
-    if m in (5, 6) and rng.random() < 0.7:
+    if m in (5, 6) and rng.random() < 0.85:
         # state-keyed rules (position ramp, braking before a target, current limit): rule objects that live through reset/rerun
         from . import c15 as C15
         kinds = ['reach', 'startprop', 'startlim'] if spec['motor']['i0'] is not None else ['reach']
-        spec['rules'].append(C15.make_rule(rng, spec, rng.choice(kinds), sim=True))
+        spec['rules'].append(C15.make_rule(rng, spec, kinds[(i // 8) % len(kinds)], sim=True))       # every kind meets both pair types
     return spec, n
 
 
